@@ -26,6 +26,32 @@ theorem split_range (lb ub v : Rat) :
     (∃ f r : Rat, f - r = v ∧ inBox (splitBounds (.fin lb) (.fin ub)).1 f ∧ inBox (splitBounds (.fin lb) (.fin ub)).2 r)
       ↔ (lb ≤ v ∧ v ≤ ub) := split_range_fin lb ub v
 
+/-- **a row of the solver is the steady-state equation of its metabolite**: evaluated at any assignment `x` of the solver variables, the row of
+metabolite `m` over the variables of the reactions `rs` equals the stoichiometry times the net fluxes `x r − x (rev r)` -/
+theorem row_is_steady_state (s : St) (sy : Sync s) (m : Id) (hm : s.hasM m = true) (x : Id → Rat) (rs : List Id)
+    (hrs : ∀ r ∈ rs, s.hasR r = true) :
+    (rs.map (fun r => s.co m r * x r + s.co m (s.rev r) * x (s.rev r))).sum =
+      (rs.map (fun r => s.st r m * (x r - x (s.rev r)))).sum := by
+  induction rs with
+  | nil => rfl
+  | cons r rs ih =>
+    have hr := hrs r (by simp)
+    obtain ⟨c1, c2⟩ := sy.coef m r hm hr
+    simp only [List.map_cons, List.sum_cons]
+    rw [ih (fun r' hr' => hrs r' (by simp [hr'])), c1, c2]
+    ring
+
+/-- the objective row is the reported coefficients applied to the net fluxes (the reverse variable carries the opposite coefficient) -/
+theorem objective_on_net_fluxes (s : St) (sy : Sync s) (x : Id → Rat) (rs : List Id) (hrs : ∀ r ∈ rs, s.hasR r = true) :
+    (rs.map (fun r => s.obj r * x r + s.obj (s.rev r) * x (s.rev r))).sum = (rs.map (fun r => s.obj r * (x r - x (s.rev r)))).sum := by
+  induction rs with
+  | nil => rfl
+  | cons r rs ih =>
+    have hr := hrs r (by simp)
+    simp only [List.map_cons, List.sum_cons]
+    rw [ih (fun r' hr' => hrs r' (by simp [hr'])), sy.objrev r hr]
+    ring
+
 
 example : Sync demo := demo_good.sync
 
